@@ -13,6 +13,7 @@ import (
 	"fmt"
 	"strings"
 
+	"go/token"
 	"go/types"
 
 	"golang.org/x/tools/go/ssa"
@@ -163,4 +164,86 @@ func orderedIterationSweep(p *Prog, prop string, rr *RunResult) {
 		rr.Functions = append(rr.Functions, e.name+" (ordered-iteration rule)")
 		rr.Obls = append(rr.Obls, e.obls...)
 	}
+}
+
+// Rule "lock-copies": a value of a struct type that contains a sync.Mutex, RWMutex, Once
+// or WaitGroup (directly or in a nested struct/array) is never copied: no parameter or
+// receiver of such a type by value, no load of a whole such struct through a pointer.
+// A copied lock protects nothing - the copy is locked while the shared data is used.
+// One obligation per function of the module (non-test).
+func lockCopySweep(p *Prog, prop string, rr *RunResult) {
+	tags := p.CS.Rules["lock-copies"]
+	if !contains(tags, prop) {
+		return
+	}
+	for _, k := range sortedKeys(p.FnByKey) {
+		fn := p.FnByKey[k]
+		if len(fn.Blocks) == 0 || strings.HasSuffix(p.SSA.Fset.Position(fn.Pos()).Filename, "_test.go") {
+			continue
+		}
+		where := ""
+		for _, prm := range fn.Params {
+			if containsLock(prm.Type(), 0) && where == "" {
+				where = "parameter " + prm.Name() + " of type " + prm.Type().String() + " is passed by value"
+			}
+		}
+		for _, b := range fn.Blocks {
+			for _, in := range b.Instrs {
+				if u, ok := in.(*ssa.UnOp); ok && u.Op == token.MUL && containsLock(u.Type(), 0) && where == "" {
+					if _, isAlloc := u.X.(*ssa.Alloc); isAlloc {
+						continue // reading a local of that type back (zero value just declared)
+					}
+					where = "a " + u.Type().String() + " is copied at " + p.SSA.Fset.Position(u.Pos()).String()
+				}
+			}
+		}
+		if where == "" && !touchesLockTypes(fn) {
+			continue
+		}
+		e := newExec(p, dispName(fn))
+		e.fn = fn
+		goal, desc := "true", "no value containing a lock is copied in "+dispName(fn)
+		if where != "" {
+			goal = "false"
+			desc += " (" + where + ")"
+		}
+		st := &State{reach: "true"}
+		o := e.obligeNoAssume(st, "lock-copies", "discipline", tags, goal, desc, fn.Pos())
+		o.Pos = posOf(p, fn.Pos())
+		rr.Execs = append(rr.Execs, e)
+		rr.Functions = append(rr.Functions, e.name+" (lock-copies rule)")
+		rr.Obls = append(rr.Obls, e.obls...)
+	}
+}
+
+func containsLock(t types.Type, depth int) bool {
+	if depth > 6 {
+		return false
+	}
+	switch types.TypeString(types.Unalias(t), nil) {
+	case "sync.Mutex", "sync.RWMutex", "sync.Once", "sync.WaitGroup":
+		return true
+	}
+	switch u := t.Underlying().(type) {
+	case *types.Struct:
+		for i := 0; i < u.NumFields(); i++ {
+			if containsLock(u.Field(i).Type(), depth+1) {
+				return true
+			}
+		}
+	case *types.Array:
+		return containsLock(u.Elem(), depth+1)
+	}
+	return false
+}
+
+// touchesLockTypes: the function has a receiver or parameter that points to a lock-holding struct
+// (those are the functions for which the rule says something).
+func touchesLockTypes(fn *ssa.Function) bool {
+	for _, prm := range fn.Params {
+		if pt, ok := prm.Type().Underlying().(*types.Pointer); ok && containsLock(pt.Elem(), 0) {
+			return true
+		}
+	}
+	return false
 }
